@@ -23,6 +23,9 @@ type replayer struct {
 	wg        sync.WaitGroup
 	mu        sync.Mutex
 	errs      []string
+	instrOnce sync.Once
+	instr     map[string]string
+	instrErr  error
 }
 
 type replayPkg struct {
@@ -30,6 +33,7 @@ type replayPkg struct {
 	fns      map[string]bool
 	bin      string
 	err      error
+	sched bool // instrumented build (lock-step schedule replays)
 }
 
 func newReplayer(knownOpen []string) *replayer {
@@ -47,6 +51,9 @@ func (r *replayer) want(j JobSpec) {
 		r.pkgs[k] = p
 	}
 	p.fns[j.Fn] = true
+	if j.SchedReplay {
+		p.sched = true
+	}
 }
 
 func repoRev() string {
@@ -131,6 +138,15 @@ func (r *replayer) build(p *replayPkg) error {
 		return err
 	}
 	repl[filepath.Join(pkgDirOf(p.dir, p.pkg), "zz_verif_replay_test.go")] = drv
+	if p.sched {
+		r.instrOnce.Do(func() { r.instr, r.instrErr = instrumentRepo(r.tmp) })
+		if r.instrErr != nil {
+			return fmt.Errorf("instrumentation: %v", r.instrErr)
+		}
+		for k, v := range r.instr {
+			repl[k] = v
+		}
+	}
 	ovb, _ := json.Marshal(map[string]interface{}{"Replace": repl})
 	ovf := filepath.Join(r.tmp, key+"_overlay.json")
 	os.WriteFile(ovf, ovb, 0644)
@@ -186,6 +202,9 @@ func (r *replayer) runNative(spec JobSpec, file string) (string, error) {
 	cmd := exec.Command(p.bin, "-test.run", "^TestVerifReplay$", "-test.count=1", "-test.timeout=120s")
 	cmd.Dir = pkgDirOf(spec.Dir, spec.Pkg)
 	cmd.Env = append(os.Environ(), "VERIF_REPLAY="+file, "VERIF_HARNESS="+spec.Fn)
+	if spec.SchedReplay {
+		cmd.Env = append(cmd.Env, "VERIF_SCHED=1")
+	}
 	var buf bytes.Buffer
 	cmd.Stdout, cmd.Stderr = &buf, &buf
 	done := make(chan error, 1)
@@ -202,7 +221,7 @@ func (r *replayer) runNative(spec JobSpec, file string) (string, error) {
 
 // confirm replays a counterexample; returns "confirmed" or a description of what happened instead.
 func (r *replayer) confirm(spec JobSpec, v *Violation, file string) string {
-	if len(v.Sched) > 0 || spec.EngineOnly {
+	if (len(v.Sched) > 0 || spec.EngineOnly) && !spec.SchedReplay {
 		return "not-replayable" // interleaving / modelled-environment counterexample
 	}
 	out, err := r.runNative(spec, file)
@@ -218,8 +237,8 @@ func (r *replayer) confirm(spec JobSpec, v *Violation, file string) string {
 		if strings.Contains(out, "fatal error:") {
 			return "confirmed"
 		}
-	case strings.HasPrefix(v.Msg, "NONTERMINATION"):
-		if err != nil && strings.Contains(err.Error(), "timed out") {
+	case strings.HasPrefix(v.Msg, "NONTERMINATION"), strings.HasPrefix(v.Msg, "DEADLOCK"):
+		if (err != nil && strings.Contains(err.Error(), "timed out")) || strings.Contains(out, "test timed out") {
 			return "confirmed"
 		}
 	default:
@@ -233,7 +252,7 @@ func (r *replayer) confirm(spec JobSpec, v *Violation, file string) string {
 // validate replays a sampled path witness and compares failed assertions and observations.
 func (r *replayer) validate(spec JobSpec, ps PathSample, i int) (bool, string) {
 	file := filepath.Join(r.tmp, fmt.Sprintf("%s-sample-%d.json", sanitize(spec.Name), i))
-	doc := replayDoc{Job: spec, Inputs: ps.Inputs, Params: spec.Params, KnownOpen: r.knownOpen}
+	doc := replayDoc{Job: spec, Inputs: ps.Inputs, Params: spec.Params, KnownOpen: r.knownOpen, Schedule: ps.Sched}
 	if doc.Inputs == nil {
 		doc.Inputs = []ReplayInput{}
 	}
@@ -244,7 +263,7 @@ func (r *replayer) validate(spec JobSpec, ps PathSample, i int) (bool, string) {
 		return false, "native run failed: " + err.Error()
 	}
 	if strings.Contains(out, "REPLAY-DIVERGED:") {
-		return false, "native run diverged from the path (an Assume failed): " + fmtInputs(ps.Inputs)
+		return false, "native run diverged from the path (an Assume failed or the schedule could not be followed): " + tail(out, 3) + " " + fmtInputs(ps.Inputs)
 	}
 	var nativeFailed []string
 	var nativeObs []string
